@@ -439,6 +439,23 @@ def _single_exit_helper(fn: ast.FunctionDef) -> bool:
     return True
 
 
+def _tail_helper(fn: ast.FunctionDef) -> bool:
+    """A private module-level function that may be substituted for `return fn(...)` (any number of returns)."""
+    if not fn.name.startswith("_") or fn.name.startswith("__") or fn.decorator_list:
+        return False
+    a = fn.args
+    if a.vararg or a.kwarg or a.posonlyargs or not fn.body:
+        return False
+    for n in ast.walk(fn):
+        if n is fn:
+            continue
+        if isinstance(n, (ast.FunctionDef, ast.AsyncFunctionDef, ast.ClassDef, ast.Yield, ast.YieldFrom, ast.Global, ast.Nonlocal, ast.Import, ast.ImportFrom, ast.Await)):
+            return False
+        if isinstance(n, ast.Name) and n.id == fn.name:
+            return False
+    return True
+
+
 def _inline_call(stmt: ast.stmt, call: ast.Call, fn: ast.FunctionDef, prefix: str) -> list[ast.stmt] | None:
     import copy
 
@@ -481,6 +498,16 @@ def _inline_call(stmt: ast.stmt, call: ast.Call, fn: ast.FunctionDef, prefix: st
         b._c08_glue = True  # parameter binding generated by the inliner
         ast.copy_location(b, stmt)
         out.append(b)
+    if isinstance(stmt, ast.Return):
+        # tail position: the helper's own returns become returns of the host
+        out.extend(body)
+        if not isinstance(body[-1], (ast.Return, ast.Raise)):
+            end = ast.Return(value=ast.Constant(value=None))  # the helper may fall off its end
+            ast.copy_location(end, stmt)
+            out.append(end)
+        for n in out:
+            ast.fix_missing_locations(n)
+        return out
     ret = body.pop()
     out.extend(body)
     val = ret.value if ret.value is not None else ast.Constant(value=None)
@@ -512,7 +539,16 @@ def _inline_block(stmts: list, helpers: dict, counter: list) -> tuple[list, bool
             call = st.value
         elif isinstance(st, ast.Expr) and isinstance(st.value, ast.Call):
             call = st.value
-        if call is not None and isinstance(call.func, ast.Name) and call.func.id in helpers:
+        tail = isinstance(st, ast.Return) and isinstance(st.value, ast.Call) and isinstance(st.value.func, ast.Name) and st.value.func.id in helpers.get("__tail__", {})
+        if tail:
+            counter[0] += 1
+            fn_ = helpers["__tail__"][st.value.func.id]
+            new = _inline_call(st, st.value, fn_, f"_{fn_.name.strip('_')}{counter[0]}__")
+            if new is not None:
+                out.extend(new)
+                changed = True
+                continue
+        if call is not None and isinstance(call.func, ast.Name) and call.func.id in helpers and call.func.id != "__tail__":
             counter[0] += 1
             new = _inline_call(st, call, helpers[call.func.id], f"_{call.func.id.strip('_')}{counter[0]}__")
             if new is not None:
@@ -550,14 +586,16 @@ def _build_inlined(corpus: Corpus) -> Corpus:
     for _ in range(3):
         funcs = [n for n in tree.body if isinstance(n, ast.FunctionDef)]
         helpers = {fn.name: fn for fn in funcs if _single_exit_helper(fn)}
-        if not helpers:
+        tails = {fn.name: fn for fn in funcs if _tail_helper(fn)}
+        if not helpers and not tails:
             break
         changed = False
         counter = [0]
         for host in funcs:
             if host.name == "parse_directive_text":
                 continue
-            usable = {k: v for k, v in helpers.items() if k != host.name}
+            usable: dict = {k: v for k, v in helpers.items() if k != host.name}
+            usable["__tail__"] = {k: v for k, v in tails.items() if k != host.name}
             nb, ch = _inline_block(host.body, usable, counter)
             if ch:
                 host.body = nb
@@ -647,9 +685,13 @@ def _machinery(corpus: Corpus) -> Machinery:
     spec_root = vm.lookup.value
     while isinstance(spec_root, ast.Name):
         spec_root = single_value(f, spec_root.id)
-    if not (isinstance(spec_root, ast.Attribute) and isinstance(spec_root.value, ast.Name) and spec_root.value.id in f.params):
+    if not (isinstance(spec_root, ast.Attribute) and isinstance(spec_root.value, ast.Name)):
         raise Unsupported("option_spec is not read from a parameter of the options function")
-    vm.cls_param = spec_root.value.id
+    vm.cls_aliases = alias_closure(f, spec_root.value.id)
+    cps = [x for x in vm.cls_aliases if x in f.params]
+    if len(cps) != 1:
+        raise Unsupported("option_spec is not read from a parameter of the options function")
+    vm.cls_param = cps[0]
     st = _stmt(vm.lookup)
     if not (isinstance(st, ast.Assign) and st.value is vm.lookup and len(st.targets) == 1 and isinstance(st.targets[0], ast.Name) and isinstance(vm.lookup.slice, ast.Name)):
         raise Unsupported(f"spec lookup is not `<name> = <spec>[<key name>]`: {short(st, 60)}")
@@ -750,9 +792,14 @@ def _machinery(corpus: Corpus) -> Machinery:
     rest = [fld for fld in vm.fields if fld not in (vm.options_field, vm.warn_field)]
     content_names = {}
     for fld in rest:
-        vals = {unparse(ctor_field(c, vm.fields, fld)) for _, c in vm.returns if isinstance(ctor_field(c, vm.fields, fld), ast.Name)}
-        if len(vals) == 1 and all(isinstance(ctor_field(c, vm.fields, fld), ast.Name) for _, c in vm.returns):
-            content_names[fld] = vals.pop()
+        if not all(isinstance(ctor_field(c, vm.fields, fld), ast.Name) for _, c in vm.returns):
+            continue
+        classes = {frozenset(alias_closure(f, ctor_field(c, vm.fields, fld).id)) for _, c in vm.returns}
+        if len(classes) == 1:
+            cl = next(iter(classes))
+            # canonical member: the options function's own name if there is one, else the first
+            own = sorted(x for x in cl if x in f.params) or sorted(cl)
+            content_names[fld] = own[0]
     vm.content_candidates = content_names
     return vm
 
@@ -1097,10 +1144,11 @@ def r2_priority(corpus: Corpus, rep: Report, tier: str):
         def no_defaults_edge(x) -> bool:
             if not (isinstance(x, tuple) and x[0] in ("T", "F") and isinstance(x[1], (ast.If, ast.While))):
                 return False
+            pal = alias_closure(t, p)
             for t_, pol in split_facts(x[1].test, x[0] == "T"):
-                if isinstance(t_, ast.Name) and t_.id == p and not pol:
+                if isinstance(t_, ast.Name) and t_.id in pal and not pol:
                     return True
-                if isinstance(t_, ast.Compare) and len(t_.ops) == 1 and isinstance(t_.left, ast.Name) and t_.left.id == p and isinstance(t_.comparators[0], ast.Constant) and t_.comparators[0].value is None:
+                if isinstance(t_, ast.Compare) and len(t_.ops) == 1 and isinstance(t_.left, ast.Name) and t_.left.id in pal and isinstance(t_.comparators[0], ast.Constant) and t_.comparators[0].value is None:
                     if (isinstance(t_.ops[0], ast.Is) and pol) or (isinstance(t_.ops[0], ast.IsNot) and not pol):
                         return True
             return False
@@ -1892,7 +1940,7 @@ def r4_one_validation_path(corpus: Corpus, rep: Report, tier: str):
             rep.assumed("C08.R4", k, site, "validate_options=False: the caller (myst-nb) asked for the raw YAML mapping; guard on the parameter bound to `not validate_options` re-verified")
             continue
         if any(
-            pol and isinstance(t_, ast.Call) and dotted(t_.func) == "issubclass" and len(t_.args) == 2 and isinstance(t_.args[0], ast.Name) and t_.args[0].id == vm.cls_param and m.resolve(dotted(t_.args[1]) or "").endswith(".TestDirective")
+            pol and isinstance(t_, ast.Call) and dotted(t_.func) == "issubclass" and len(t_.args) == 2 and isinstance(t_.args[0], ast.Name) and t_.args[0].id in vm.cls_aliases and m.resolve(dotted(t_.args[1]) or "").endswith(".TestDirective")
             for t_, pol in gs
         ):
             rep.assumed("C08.R4", k, site, "docutils' TestDirective (testing only) accepts every option unvalidated by design; guard issubclass(<class>, TestDirective) re-verified")
